@@ -17,6 +17,7 @@ Clauses of the property:
 -/
 import OccaProofs.Lemmas.Dim
 import OccaProofs.Lemmas.ExprGroup
+import OccaProofs.Lemmas.ExprGrammar
 
 namespace Occa.Dim.C19
 open Occa Occa.Dim Occa.LoopExpr
@@ -33,25 +34,31 @@ theorem C19_index_expr_value (env : String → Int) (dims args : List Expr) (ord
     eval env (dimIndexExpr dims args order) = linear (dims.map (eval env)) (args.map (eval env)) order := by
   rw [dimIndexExpr_value, codeIndex_eq_linear]
 
-/-- (b) Its text keeps the grouping for index and dimension arguments of every operator class (each only has
-    to be grouped itself, as everything the OKL parser produced is). -/
+/-- (b) Its text is derived by the C expression grammar (`Derives`, Lemmas/ExprGrammar.lean) as the very tree that
+    was built, for index and dimension arguments of every operator class (each only has to be grouped itself,
+    as everything the OKL parser produced is): every argument is read as a complete expression. -/
 theorem C19_index_expr_faithful (dims args : List Expr) (order : List Nat)
-    (hd : ∀ e ∈ dims, Grouped e) (ha : ∀ e ∈ args, Grouped e) : Grouped (dimIndexExpr dims args order) :=
-  dimIndexExpr_grouped dims args order hd ha
+    (hd : ∀ e ∈ dims, Grouped e) (ha : ∀ e ∈ args, Grouped e) :
+    ∃ ts : List Tok, renderAll ts = print (dimIndexExpr dims args order) ∧
+      Derives 16 ts (dimIndexExpr dims args order) :=
+  grouped_reads _ (dimIndexExpr_grouped dims args order hd ha)
 
 example : Grouped (dimIndexExpr [.lit 3, .lit 5] [.bin "&" (.var "a") (.var "b"), .tern (.var "j") (.lit 1) (.lit 2)] [0, 1]) := by
   decide
 
-/-- (b) Before fix F26 `x(a & b, j)` with `@dim(3, 5)` was printed `x[a & b + (3 * j)]`: the text of the grouped
-    tree `a & (b + (3 * j))`, whose value (a = 1, b = 2, j = 1: 1) is not the index (3). -/
+/-- (b) Before fix F26 `x(a & b, j)` with `@dim(3, 5)` was printed `x[a & b + (3 * j)]`: the grammar derives
+    that text as `a & (b + (3 * j))`, whose value (a = 1, b = 2, j = 1: 1) is not the index (3). -/
 theorem C19_old_misread :
     let args : List Expr := [.bin "&" (.var "a") (.var "b"), .var "j"]
     let dims : List Expr := [.lit 3, .lit 5]
     let r : Expr := .bin "&" (.var "a") (.bin "+" (.var "b") (.paren (.bin "*" (.lit 3) (.var "j"))))
     let env : String → Int := fun n => if n = "a" then 1 else if n = "b" then 2 else 1
-    Grouped r ∧ print r = print (dimIndexExprOld dims args [0, 1]) ∧ eval env r = 1 ∧
+    (∃ ts, renderAll ts = print (dimIndexExprOld dims args [0, 1]) ∧ Derives 16 ts r) ∧ eval env r = 1 ∧
       linear (dims.map (eval env)) (args.map (eval env)) [0, 1] = 3 := by
-  decide
+  refine ⟨?_, by decide, by decide⟩
+  obtain ⟨ts, h1, h2⟩ := grouped_reads
+    (.bin "&" (.var "a") (.bin "+" (.var "b") (.paren (.bin "*" (.lit 3) (.var "j"))))) (by decide)
+  exact ⟨ts, by rw [h1]; decide, h2⟩
 
 /-- (c) In-range indices give an index inside the array: `0 ≤ linear < D0 * … * Dk`, for every
     permutation order. -/
